@@ -115,7 +115,8 @@ pub fn bitmap_accessors(bm: &RevocationBitmap, svc: &Service) {
   bb((c.len(), c.to_service(REV_ID.clone()).is_ok()));
   // document level
   st("CoreDocument(with service)");
-  let mut doc = CoreDocument::builder(Object::new()).id(REV_ID.did().clone()).service(svc.clone()).build().expect("document with one service");
+  // (a document builder that rejects the service is not a finding: the document-level stage is skipped)
+  let Ok(mut doc) = CoreDocument::builder(Object::new()).id(REV_ID.did().clone()).service(svc.clone()).build() else { return };
   st("CoreDocument::resolve_revocation_bitmap");
   bb(doc.resolve_revocation_bitmap("#rev".into()).is_ok());
   st("CoreDocument::revoke_credentials");
@@ -126,7 +127,7 @@ pub fn bitmap_accessors(bm: &RevocationBitmap, svc: &Service) {
   bb(doc.to_json().is_ok());
   // validator level
   st("check_status");
-  let mut doc = CoreDocument::builder(Object::new()).id(REV_ID.did().clone()).service(svc.clone()).build().expect("document with one service");
+  let Ok(mut doc) = CoreDocument::builder(Object::new()).id(REV_ID.did().clone()).service(svc.clone()).build() else { return };
   for i in [0u32, 5, 65536, u32::MAX] {
     let status = RevocationBitmapStatus::new(REV_ID.clone(), i);
     let cred = status_credential(status.into());
